@@ -332,6 +332,7 @@ func main() {
 	emitPipeline(root, *out)
 	emitMask(describe, achcli, *out)
 	emitSites(root, server, *out)
+	emitTopics(root, *out)
 
 	// summary for the driver
 	fmt.Printf("gofacts: ok unrecognised=%d\n", len(unrecognised))
